@@ -11,6 +11,9 @@
 //!   3033 GLWEPacker (log_batch 0): N x glwe_packer_add, flush  x3 = bit mask of the calls that carry a ciphertext
 //!   3040 lwe_from_glwe (x0 = coefficient index, x3 = n_lwe)  3041 glwe_from_lwe (x3 = n_lwe)  3042 lwe_sample_extract (x3 = n_lwe)
 //!   3050 shape independence: one encrypted message switched through a grid of key shapes (x3 = k_pt, x4 = G, then 6 numbers per shape)
+//!   3061 ggsw_from_gglwe 3062 ggsw_expand_row 3063 ggsw_keyswitch 3064 _assign 3065 ggsw_automorphism 3066 _assign  (tensor key from the
+//!        public generator; layout as C04's 4021..4033: x4 dsize, x5 dnum, x6 noise position of the GGSW, x7.. second key; every cell checked)
+//!   3091 rows of the GGLWE->GGSW (tensor) key: key i, row r, column j encrypts s_i s_j 2^-((r+1) dsize b)
 //!   3090 key rows of a freshly encrypted GLWE switching key (x0 = 0) / automorphism key (x0 = p)
 //! vs: 0 secret in, 1 secret out, 2 input ciphertext(s), 3 key dump (L1 records only) ; observations: outputs, then [flags]
 #[path = "../ks_common.rs"]
@@ -386,6 +389,11 @@ fn run(r: &Rec) -> Ran {
                     (o, vec![vec![1]])
                 }))
             }
+            // GGSW key-switch family (C03 names it): same code as C04's records, C03 numbering
+            3061..=3066 | 3091 => {
+                let code4 = match r.code { 3061 => 4021, 3062 => 4022, 3063 => 4030, 3064 => 4031, 3065 => 4032, 3066 => 4033, _ => 4023 };
+                run_ggsw_family(r, code4)
+            }
             3090 => {
                 let p = x(0) as i64;
                 let sk_in = sk_new(n, h.key_rin, h.seed ^ 1, kin);
@@ -404,7 +412,7 @@ fn run(r: &Rec) -> Ran {
     })
 }
 
-fn has_flags(c: i64) -> bool { !matches!(c, 3042 | 3050 | 3090) }
+fn has_flags(c: i64) -> bool { !matches!(c, 3042 | 3050 | 3090 | 3091) }
 pub fn exec(r: &Rec) -> Ran { exec_xbe(r, run, has_flags) }
 
 /// a gadget shape for an input of `in_size` limbs of radix `in_b`: (key_b, dsize, dnum, key_size, key_k)
@@ -544,6 +552,31 @@ pub fn generate(tier: &str, seed: u64) -> Vec<Rec> {
         let mut h2 = base(&mut rng, it, 1, false);
         h2.out_b = h2.in_b;
         out.push(mk(3042, &h2, vec![0, 0, rng.below(6) as i128, rng.range(1, h2.n as i64) as i128]));
+    }
+    // --- GGSW key-switch / automorphism / from_gglwe / expand_row with the tensor key of the public generator, ranks 1..3 (rank 3 in
+    //     every second round: the packed index of s_i s_j first differs from its transpose there), and the rows of the tensor key itself
+    for it in 0..36 * scale {
+        let mut h = base(&mut rng, it, 2, true);
+        let fft = h.be <= 2;
+        let rank = if (it / 6) % 2 == 0 { 3 } else { rng.range(1, 3) as usize };
+        h.in_rank = rank; h.out_rank = rank; h.key_rin = rank; h.key_rout = rank;
+        h.in_size = h.in_size.max(3); h.out_b = h.in_b; h.out_size = h.in_size;
+        let code = 3061 + (it % 6) as i64;
+        let gd = (rng.range(1, 2) as usize).min(h.in_size - 1);
+        let gn_ = rng.range(1, (h.in_size / gd) as i64) as usize;
+        let gk = h.in_size * h.in_b;
+        let need = (h.in_size * h.in_b).div_ceil(h.key_b).div_ceil(h.dsize);
+        h.dnum = need.max(1);
+        h.key_size = (h.dnum * h.dsize + 1).max(h.dsize + 1);
+        h.key_k = h.key_size * h.key_b;
+        let b2 = if rng.below(2) == 0 { h.key_b } else { (if fft { rng.range(7, 16) } else { rng.range(7, 40) }) as usize };
+        let d2 = rng.range(1, 2) as usize;
+        let n2 = (h.in_size * h.in_b).div_ceil(b2).div_ceil(d2).max(1);
+        let s2 = (n2 * d2 + 1).max(d2 + 1);
+        let p = 2 * rng.below(h.n as u64) as i128 + 1;
+        out.push(mk(code, &h, vec![p, rng.below(3) as i128, 0, rng.below(6) as i128, gd as i128, gn_ as i128, gk as i128,
+                                   b2 as i128, s2 as i128, d2 as i128, n2 as i128, (s2 * b2) as i128]));
+        if it % 4 == 0 { out.push(mk(3091, &h, vec![0, rng.below(3) as i128])); }
     }
     // --- shape independence
     for it in 0..10 * scale {
